@@ -28,7 +28,7 @@ def close(a, b, rel, ab):
     return abs(a - b) <= rel * max(abs(a), abs(b)) + ab
 
 class Case:
-    def __init__(self, prob, u0, y, mu, P, always, tol, stop_eval=-1, stop_cb=-1, time0=False, tag="random"):
+    def __init__(self, prob, u0, y, mu, P, always, tol, stop_eval=-1, stop_cb=-1, time0=False, tag="random", nan_fwd=-1):
         self.__dict__.update(locals()); del self.__dict__["self"]
 
     def P_(self, k):
@@ -38,7 +38,7 @@ class Case:
         p = self.prob
         g = self.P_
         flat = lambda M: [x for r in M for x in r]
-        parts = ["run", "%d %d %d %d %d" % (p["N"], p["nx"], p["nu"], p["nc"], p["ncN"]),
+        parts = ["run" if self.nan_fwd < 0 else "runx", "%d %d %d %d %d" % (p["N"], p["nx"], p["nu"], p["nc"], p["ncN"]),
                  vec_in(flat(p["A"])), vec_in(flat(p["B"])), vec_in(p["fa"]), vec_in(p["fb"]), vec_in(p["w"]), vec_in(p["ref"]), vec_in(p["w4"]),
                  vec_in(p["wN"]), vec_in(p["refN"]), vec_in(p["wN4"]), vec_in(flat(p["Cx"])), vec_in(p["cq"]), vec_in(flat(p["CN"])), vec_in(p["cNq"]),
                  vec_in(p["Dlb"]), vec_in(p["Dub"]), vec_in(p["DNlb"]), vec_in(p["DNub"]), vec_in(p["Ulb"]), vec_in(p["Uub"]), vec_in(p["x0"]),
@@ -47,13 +47,13 @@ class Case:
                                                          int(g("reset_lbfgs")), int(g("chol")), int(g("disable_acc")), int(self.always), hexf(g("L_0")),
                                                          g("max_no_progress"), g("mem")),
                  " ".join(hexf(g(k)) for k in ("L_max", "L_min", "Lgamma", "lip_eps", "lip_delta", "qub_tol", "ls_tol", "beta", "tau_min")),
-                 "%d %d %d" % (self.stop_eval, self.stop_cb, int(self.time0))]
+                 "%d %d %d" % (self.stop_eval, self.stop_cb, int(self.time0))] + (["%d" % self.nan_fwd] if self.nan_fwd >= 0 else [])
         return " ".join(parts) + "\n"
 
     def describe(self):
         p = self.prob
         return {"dims(N,nx,nu,nc,ncN)": [p[k] for k in ("N", "nx", "nu", "nc", "ncN")], "params": dict(self.P), "always": self.always, "tol": self.tol,
-                "stop_eval": self.stop_eval, "stop_cb": self.stop_cb, "time0": self.time0, "tag": self.tag, "Ulb": p["Ulb"], "Uub": p["Uub"],
+                "stop_eval": self.stop_eval, "stop_cb": self.stop_cb, "time0": self.time0, "tag": self.tag, "nan_in_forward_sweep": self.nan_fwd, "Ulb": p["Ulb"], "Uub": p["Uub"],
                 "u0": self.u0, "y": self.y, "mu": self.mu}
 
 # ------------------------------------------------------------------ Coq terms
@@ -384,8 +384,45 @@ def attach(ctx, scale=0.35, extra_oracle=None):
     ctx.assumptions.append("PANOC-OCP whole-loop model (PanocOcpLoop.v, theorems in Properties_PANOCOCP.v) attached: whole runs of PANOCOCPSolver must coincide with the verified model at binary64 (Gauss-Newton block teacher-forced)")
     run_corr(ctx, ctx.pid, scale, extra_oracle)
 
+def gen_nan_sweep(ctx, n):
+    """the cost is NaN during ONE forward sweep (op runx): when that sweep evaluates an accelerated candidate the candidate must be dropped
+    (safeguarded step), never accepted.  The model's oracles are pure functions, so these runs are judged by the oracle only."""
+    rng = ctx.rng
+    out = []
+    for _ in range(n):
+        p = gen_problem(rng, linear=rng.random() < 0.3, quartic=True, hard=rng.random() < 0.5)
+        u0, y, mu = gen_start(rng, p)
+        P = {"max_iter": rng.choice([6, 10]), "crit": rng.choice(SUPPORTED), "gn_interval": rng.choice([0, 0, 1, 2]), "mem": 3, "L_0": rng.choice([0.125, 1.0, 0.0])}
+        for f in range(2, 14):
+            out.append(Case(p, u0, y, mu, P, True, 1e-9, tag="nan-sweep", nan_fwd=f))
+    return out
+
+def oracle_nan_sweep(cs, o):
+    bad = []
+    if "exc" in o: return bad
+    recs = o.get("records", [])
+    for a, b in zip(recs, recs[1:]):
+        tau = D(a, "tau")
+        if a["status"] == "Busy" and tau > 0 and not math.isfinite(D(b, "psi")) and math.isfinite(D(a, "psi")):
+            bad.append(("PANOCOCP:accelerated-step-to-non-finite-cost", "k=%d: accelerated step (tau=%r) accepted although the cost at the candidate is %r" % (a["k"], tau, D(b, "psi"))))
+            break
+    return bad
+
 def run_corr(ctx, prefix, scale, extra_oracle=None):
     if not build_driver(ctx, "ocp"): return
+    nan_cases = gen_nan_sweep(ctx, max(3, int(scale * ctx.n(10, 60))))
+    nouts = run_driver(ctx, "ocp", "".join(c.to_input() for c in nan_cases), timeout=900)
+    if nouts is None or len(nouts) != len(nan_cases):
+        ctx.broke("correspondence", "drv_ocp (nan-sweep stream)", "driver produced %s results for %d runs" % (None if nouts is None else len(nouts), len(nan_cases)))
+        return
+    nsig = lambda s_: s_.replace("PANOCOCP:", prefix + ":panococp-model:") if prefix != "PANOCOCP" else s_
+    hit = 0
+    for cs, o in zip(nan_cases, nouts):
+        ctx.count(cs.tag)
+        if any(D(r, "tau") == 0 and r["status"] == "Busy" for r in o.get("records", [])): hit += 1
+        for s_, msg in oracle_nan_sweep(cs, o):
+            ctx.violation(nsig(s_), msg, {"driver": "drv_ocp", "input": cs.to_input(), "request": cs.describe(), "impl_output": {k: v for k, v in o.items() if k != "records"}, "why": msg})
+    ctx.coverage["nan_sweep_runs"] = len(nan_cases)
     cases = (gen_corpus(ctx) + gen_dyadic(ctx) + gen_plateau(ctx, max(4, int(scale * ctx.n(12, 60)))) + gen_stopscan(ctx, max(2, int(scale * ctx.n(6, 40)))) +
              gen_hard(ctx, max(20, int(scale * ctx.n(150, 1500)))) + gen_random(ctx, max(40, int(scale * ctx.n(250, 2500)))))
     outs = run_driver(ctx, "ocp", "".join(c.to_input() for c in cases), timeout=1500)
